@@ -13,11 +13,16 @@ import cfggen
 import gen
 import vlib
 
-PROSE = ["Some text.", "# Title", "a `b` c", "", "line one\nline two", "tab\there", "unicode é €", "- item", "x\r\ny"]
+PROSE = ["Some text.", "# Title", "a `b` c", "", "line one\nline two", "tab\there", "unicode é €", "- item", "x\r\ny",
+         "no-break\u00a0space", "ideographic\u3000space", "ls\u2028ps\u2029", "vt\x0bff\x0cnel\u0085", "~~~", "\ufeffbom", "thin\u2009sp\u202f\u205f\u1680",
+         "nul\x00ctl\x1a", "\U0001F600 emoji", "'quote' \"dq\" << >>", "    indented code", "``", "` ` `"]
 
 
 def rand_doc_runes(rng):
     alpha = [96, 96, 96, 10, 97, 32, 233, 13, 9]
+    if rng.random() < 0.3:
+        # runes that other notions of "white space" / "printable" treat specially
+        alpha = alpha + [0xA0, 0x3000, 0x2028, 0x85, 0x0B, 0x0C, 0xFEFF, 0, 0x7E, 0xFFFD, 0x1F600, 0x2009, 0x1A]
     return [rng.choice(alpha) for _ in range(rng.randint(0, 40))]
 
 
